@@ -81,6 +81,9 @@ func init() {
 						env.emit(vpOut{ID: c.ID, Err: "world: " + err.Error()})
 						continue
 					}
+					if pair[0].mr != nil {
+						pair[0].mr.FlushAll() // every behaviour starts from an empty store
+					}
 					cur := 0 // 0: rules admit alice only; 1: alice and bob
 					pair[0].idp.mu.Lock()
 					pair[0].idp.refreshMode = "ok"
@@ -233,6 +236,18 @@ func init() {
 							}
 							obs["ok"] = true
 						}
+						// the projection of the real state (conformance with the model's abstract state after the step)
+						has := func(j *vpJar) bool { ck := j.get(w.name); return ck != nil && ck.Value != "" }
+						obs["b1"], obs["b2"] = has(jars["b1"]), has(jars["b2"])
+						ns := 0
+						if w.mr != nil {
+							for _, k := range w.mr.Keys() {
+								if !strings.HasSuffix(k, ".lock") && !strings.Contains(k, "lock") {
+									ns++
+								}
+							}
+						}
+						obs["nstored"] = ns
 						steps = append(steps, obs)
 						if obs["diverged"] == true {
 							break
